@@ -57,7 +57,12 @@ CollDocs == {DocIn("Response", <<AttrEv("Headers", [f |-> "l", items |-> SubSeq(
             \cup {DocIn("Binary", <<AttrEv("ReplaceStrings-x64", [f |-> "m", colon |-> c, ml |-> ml,
                         pairs |-> SubSeq(<<[k |-> Zs, v |-> Q(<<Lx("b", "raw")>>)], [k |-> [f |-> "id", lx |-> <<Lx("b", "raw"), Lx("x", "raw")>>], v |-> Q(<<>>)]>>, 1, n)])>>) :
                      n \in 0..2, c \in BOOLEAN, ml \in BOOLEAN}
-SweepDocs == PairDocs \cup SingleDocs \cup ScalarDocs \cup CollDocs
+(* heredocs with empty lines, plain and indented *)
+Zr == Lx("z", "raw")
+Nr == Lx("nl", "raw")
+HereDocs == {DocIn("user", <<AttrEv("Password", [f |-> "h", lx |-> lx, ind |-> i])>>) :
+                lx \in {<<Zr, Nr, Nr, Zr>>, <<Nr, Zr>>, <<Zr, Nr>>, <<Nr>>, <<Zr, Nr, Zr>>, <<Zr, Nr, Nr, Nr, Lx("q", "raw")>>, <<>>}, i \in BOOLEAN}
+SweepDocs == PairDocs \cup SingleDocs \cup ScalarDocs \cup CollDocs \cup HereDocs
 
 (* ------------------------------------------------------------------ sweep 2: every single fault at every place of the schema *)
 BadSv(k) == CASE k = "str"  -> {DefaultSv("list"), DefaultSv("map")}
@@ -87,7 +92,7 @@ RandLx(c, n) == LET as == [i \in 1..n |-> RandomElement(RandAtoms(c))] \o <<>>  
                 IN [i \in 1..n |-> Lx(as[i], RandomElement({s \in Spellings : Legal(c, as[i], s, IF i < n THEN as[i + 1] ELSE "")}))] \o <<>>
 RandQ == Q(RandLx("q", RandomElement(0..6)))
 RandH == LET lx == RandLx("h", RandomElement(0..6))
-         IN [f |-> "h", lx |-> lx, ind |-> \A i \in 1..Len(lx) : lx[i].a \notin {"sp", "tab", "nl"}]
+         IN [f |-> "h", lx |-> lx, ind |-> RandomElement(BOOLEAN) /\ \A i \in 1..Len(lx) : lx[i].a \notin {"sp", "tab"}]
 RandSv(k) == CASE k = "str"  -> IF RandomElement(1..4) = 1 THEN RandH ELSE RandQ
                [] k = "int"  -> [f |-> RandomElement({"n", "nq"}), d |-> RandomElement(DOMAIN GoodInt)]
                [] k = "bool" -> [f |-> RandomElement({"b", "bq"}), v |-> RandomElement(BOOLEAN)]
